@@ -13,6 +13,7 @@
 import Proofs.C18_Doc
 import Proofs.C18_Image
 import Proofs.C18_SimDoc
+import Proofs.C18_Ext7
 namespace Mammoth
 
 /-- Every external read performed by a successful `convertDoc` is a read on behalf of one of the
@@ -227,5 +228,119 @@ example :
 example :
     (convertDoc { base := some S!"/tmp", world := fun _ => some [1], imageConv := .fixed [] false }
       { children := [.image { src := .linked S!"a.png" }] }).map (·.ioTrace) = .ok [] := by rfl
+
+/-! ### extension 7: exact reads of one image conversion, the success case, the resolved target -/
+
+/-- One call of the image converter (`visit_image`), for ALL configurations, images and states: if
+    it succeeds, the external-read trace grows by EXACTLY `c18_imageOps base opens src` — nothing
+    when the converter does not open the image, nothing for an embedded image, `urlopen uri` for an
+    absolute uri, `open(join(base, uri))` for a relative uri of a named input, nothing for a
+    relative uri of an anonymous input — whether or not the read succeeds (`cfg.world` does not
+    occur on the right-hand side); and the converter was called with exactly this image. -/
+theorem C18_image_reads_exact (cfg : Cfg) (i : ImageProps) (st st' : ConvState) (ns : List Node)
+    (h : (convertImage cfg i).run st = .ok (ns, st')) :
+    st'.ioTrace = st.ioTrace ++ c18_imageOps cfg.base (c18_opens cfg) i.src ∧
+    st'.imageCalls = st.imageCalls ++ [i] :=
+  c18_convertImage_trace cfg i st st' ns h
+#print axioms C18_image_reads_exact
+
+example :
+    ((convertImage { base := some S!"/d", imageConv := .fixed [] true }
+        { src := .linked S!"a.png" }).run {}).map (fun r => (r.1, r.2.ioTrace))
+      = .ok ([], [.openFile S!"/d/a.png"]) := by rfl
+example : c18_imageOps (some S!"/d") true (.linked S!"a.png") = [.openFile S!"/d/a.png"] := by decide
+example : c18_imageOps none true (.linked S!"a.png") = [] := by decide
+example : c18_imageOps none true (.linked S!"http://x/a") = [.urlopen S!"http://x/a"] := by decide
+
+/-- One call of the image converter performs at most one external read, and the old trace is kept
+    as a prefix (nothing already logged is dropped or reordered). -/
+theorem C18_image_at_most_one_read (cfg : Cfg) (i : ImageProps) (st st' : ConvState)
+    (ns : List Node) (h : (convertImage cfg i).run st = .ok (ns, st')) :
+    ∃ ops, st'.ioTrace = st.ioTrace ++ ops ∧ ops.length ≤ 1 := by
+  refine ⟨_, (C18_image_reads_exact cfg i st st' ns h).1, ?_⟩
+  unfold c18_imageOps
+  split
+  · simp
+  · simp
+  · split <;> simp
+#print axioms C18_image_at_most_one_read
+
+example :
+    ∃ ns st', (convertImage { base := some S!"/d", imageConv := .fixed [] true }
+        { src := .linked S!"a.png" }).run { ioTrace := [.urlopen S!"x:y"] } = .ok (ns, st') ∧
+      st'.ioTrace = [.urlopen S!"x:y", .openFile S!"/d/a.png"] := ⟨_, _, rfl, rfl⟩
+
+/-- Success case, absolute uri, default converter `data_uri`: when `urlopen uri` yields `bytes`,
+    the result is exactly one `<img>` with the optional non-empty `alt` followed by
+    `src="data:<content type>;base64,<bytes>"`; exactly the one read `urlopen uri` is logged and no
+    warning is added. -/
+theorem C18_open_success_abs_dataUri (cfg : Cfg) (a ct : Option Str) (uri : Str) (bytes : Bytes)
+    (st : ConvState) (habs : isAbsoluteUri uri = true) (hw : cfg.world uri = some bytes)
+    (hc : cfg.imageConv = .dataUri) :
+    (convertImage cfg { altText := a, contentType := ct, src := .linked uri }).run st =
+      .ok ([el S!"img" ((match a with
+                          | some a => if a.isEmpty then [] else [(S!"alt", a)]
+                          | none => []) ++
+              [(S!"src", S!"data:" ++ pyOpt ct ++ S!";base64," ++ b64encode bytes)]) []],
+           { st with
+             imageCalls := st.imageCalls ++ [{ altText := a, contentType := ct, src := .linked uri }],
+             ioTrace := st.ioTrace ++ [.urlopen uri] }) := by
+  refine c18_convertImage_dataUri_ok cfg _ st _ bytes hc ?_
+  rw [c18_openImage_abs cfg uri _ habs, hw]
+#print axioms C18_open_success_abs_dataUri
+
+/-- the hypotheses are satisfiable; the trace and warnings of that instance, computed -/
+example : isAbsoluteUri S!"http://x/a" = true ∧
+    ({ world := fun _ => some [1, 2, 3] } : Cfg).world S!"http://x/a" = some [1, 2, 3] ∧
+    ((convertImage { world := fun _ => some [1, 2, 3] }
+        { altText := some S!"x", contentType := some S!"image/png",
+          src := .linked S!"http://x/a" }).run {}).map
+        (fun r => (r.1.length, r.2.ioTrace, r.2.messages))
+      = .ok (1, [.urlopen S!"http://x/a"], []) := ⟨by decide, rfl, by rfl⟩
+
+/-- Success case, relative uri, input with directory `b`, default converter: exactly the one read
+    `open(os.path.join(b, uri))` is logged, no warning, and the `<img>` carries the bytes that this
+    very target yielded. -/
+theorem C18_open_success_rel_dataUri (cfg : Cfg) (a ct : Option Str) (uri b : Str) (bytes : Bytes)
+    (st : ConvState) (habs : isAbsoluteUri uri = false) (hb : cfg.base = some b)
+    (hw : cfg.world (osPathJoin b uri) = some bytes) (hc : cfg.imageConv = .dataUri) :
+    (convertImage cfg { altText := a, contentType := ct, src := .linked uri }).run st =
+      .ok ([el S!"img" ((match a with
+                          | some a => if a.isEmpty then [] else [(S!"alt", a)]
+                          | none => []) ++
+              [(S!"src", S!"data:" ++ pyOpt ct ++ S!";base64," ++ b64encode bytes)]) []],
+           { st with
+             imageCalls := st.imageCalls ++ [{ altText := a, contentType := ct, src := .linked uri }],
+             ioTrace := st.ioTrace ++ [.openFile (osPathJoin b uri)] }) := by
+  refine c18_convertImage_dataUri_ok cfg _ st _ bytes hc ?_
+  rw [c18_openImage_rel cfg uri b _ habs hb, hw]
+#print axioms C18_open_success_rel_dataUri
+
+/-- the hypotheses are satisfiable; the trace and warnings of that instance, computed -/
+example : isAbsoluteUri S!"a.png" = false ∧
+    ((convertImage { base := some S!"/d",
+                     world := fun p => if p = S!"/d/a.png" then some [1, 2, 3] else none }
+        { contentType := some S!"image/png", src := .linked S!"a.png" }).run {}).map
+        (fun r => (r.1.length, r.2.ioTrace, r.2.messages))
+      = .ok (1, [.openFile S!"/d/a.png"], []) := ⟨by decide, by rfl⟩
+
+/-- "Only that target resolved against the input file's directory": for a uri that does not start
+    with `/`, the opened path is the directory, at most one separating `/`, then the uri verbatim
+    (the separator is omitted exactly when the directory is empty or already ends in `/`); a uri
+    that starts with `/` is opened as it is (POSIX `os.path.join`). -/
+theorem C18_target_resolved_against_directory (b uri : Str) :
+    (startsWith uri ['/'] = false →
+      osPathJoin b uri = (if b.isEmpty || b.getLast? == some '/' then b ++ uri
+                          else b ++ ['/'] ++ uri)) ∧
+    (startsWith uri ['/'] = true → osPathJoin b uri = uri) := by
+  refine ⟨fun h => ?_, c18_join_rooted b uri⟩
+  unfold osPathJoin
+  rw [h]
+  rfl
+#print axioms C18_target_resolved_against_directory
+
+example : startsWith S!"a.png" ['/'] = false ∧ osPathJoin S!"/d" S!"a.png" = S!"/d/a.png" ∧
+    osPathJoin S!"/d/" S!"a.png" = S!"/d/a.png" ∧ osPathJoin S!"" S!"a.png" = S!"a.png" := by decide
+example : startsWith S!"/etc/x" ['/'] = true ∧ osPathJoin S!"/d" S!"/etc/x" = S!"/etc/x" := by decide
 
 end Mammoth
